@@ -184,12 +184,14 @@ class _Helper(object):
         return out
 
 
-def _classify(fn, method, nested):
-    """-> kind or None"""
+def _classify(fn, method, nested, known=None):
+    """-> kind or None.  `known`: the names the recorded vocabulary has in this scope (None: no record) - a name the rules mention
+    is an anchor only where the recorded tree had it; a *new* function that happens to share a name with an anchor elsewhere
+    (a fresh Event._notify next to Circuit._notify) is a helper like any other"""
     name = fn.name
     if not nested and (not name.startswith('_') or name.startswith('__')):
         return None
-    if name in anchors():
+    if name in anchors() and (known is None or name in known):
         return None
     if any(not _is_ic(d) for d in fn.decorator_list):
         return None
@@ -395,6 +397,26 @@ class _Inliner(ast.NodeTransformer):
         self.generic_visit(st)
         return st
 
+    def visit_If(self, st):
+        # `if [not] helper(args):` with a statement helper that returns a value: run the body first, test its result
+        t = st.test
+        neg = isinstance(t, ast.UnaryOp) and isinstance(t.op, ast.Not)
+        call = t.operand if neg else t
+        h, m = self._helper_for(call, False)
+        if h is not None and h.kind in ('STMT_RET', 'STRUCT'):
+            body, ret = self._expand(h, m, st)
+            if not isinstance(ret, ast.Name):
+                rn = '%s__result' % h.name.strip('_')
+                body = body + [ast.copy_location(ast.Assign(targets=[ast.Name(id=rn, ctx=ast.Store())], value=ret), st)]
+                ret = ast.Name(id=rn, ctx=ast.Load())
+            st.test = ast.copy_location(ast.UnaryOp(op=ast.Not(), operand=ret) if neg else ret, t)
+            self.generic_visit(st)
+            for b in body:
+                ast.fix_missing_locations(b)
+            return body + [st]
+        self.generic_visit(st)
+        return st
+
     def visit_Call(self, node):
         self.generic_visit(node)
         h, m = self._helper_for(node, False)
@@ -410,7 +432,7 @@ def _functions_of(body):
     return [st for st in body if isinstance(st, (ast.FunctionDef, ast.AsyncFunctionDef))]
 
 
-def _process_function(fn, scope, depth=0):
+def _process_function(fn, scope, depth=0, known_nested=None):
     """inline into fn (and, recursively, into its nested functions with their own local helpers added to the scope)"""
     # cheap pre-filter: nothing to do unless fn mentions a helper in scope or defines nested functions
     wanted = set(k[1] for k in scope)
@@ -427,7 +449,7 @@ def _process_function(fn, scope, depth=0):
     nested = [st for st in ast.walk(fn) if isinstance(st, (ast.FunctionDef, ast.AsyncFunctionDef)) and st is not fn]
     direct = _functions_of(fn.body)
     for nf in direct:
-        kind = _classify(nf, False, True)
+        kind = _classify(nf, False, True, known_nested)
         if kind is None:
             continue
         # every reference to the name inside fn is the func of a call
@@ -490,29 +512,59 @@ def _remove_def(owner, fn):
     return False
 
 
-def normalize_package(trees):
+def normalize_package(trees, ref=None):
     """trees: {module name: ast.Module}; rewritten in place.  Returns [(module, helper name, sites inlined, removed?)]."""
     log = []
-    # method names defined by more than one class anywhere in the package are never inlined (possible override)
-    method_defs = {}
+    # a method is inlined only if no other class of its hierarchy defines the name (possible override): classes are related when
+    # one names the other among its bases, directly or transitively, by simple name (conservative: any class with an unresolved
+    # base expression that is not a plain dotted name is related to everything)
+    classes = []
     for mname, tree in trees.items():
         for cls in [n for n in ast.walk(tree) if isinstance(n, ast.ClassDef)]:
-            for fn in _functions_of(cls.body):
-                method_defs[fn.name] = method_defs.get(fn.name, 0) + 1
+            bases = []
+            for b in cls.bases:
+                d = ast.unparse(b)
+                bases.append(d.split('.')[-1] if all(ch.isalnum() or ch in '._' for ch in d) else '*')
+            classes.append((cls, bases, set(fn.name for fn in _functions_of(cls.body))))
+    by_name = {}
+    for cls, bases, meths in classes:
+        by_name.setdefault(cls.name, []).append((cls, bases, meths))
+
+    def ancestors(name, seen):
+        out = set()
+        for cls, bases, meths in by_name.get(name, []):
+            for b in bases:
+                if b == '*':
+                    out.add('*')
+                elif b not in seen:
+                    seen.add(b)
+                    out.add(b)
+                    out |= ancestors(b, seen)
+        return out
+    anc = dict((cls.name, ancestors(cls.name, set([cls.name]))) for cls, _, _ in classes)
+    method_defs = {}          # (class id, method name) -> number of definitions in the hierarchy of that class
+
+    def related(a, b):
+        return a == b or b in anc.get(a, ()) or a in anc.get(b, ()) or '*' in anc.get(a, ()) or '*' in anc.get(b, ())
+    for cls, bases, meths in classes:
+        for m in meths:
+            method_defs[(id(cls), m)] = sum(1 for c2, _, m2 in classes if m in m2 and related(cls.name, c2.name))
     helpers_by_module = {}
     for mname, tree in trees.items():
         mod_scope = {}
+        rmod = (ref or {}).get(mname)
         for fn in _functions_of(tree.body):
-            kind = _classify(fn, False, False)
+            kind = _classify(fn, False, False, set(rmod['functions']) if rmod else None)
             if kind is not None:
                 mod_scope[('f', fn.name)] = _Helper(fn, kind, tree, False)
         class_scopes = {}
         for cls in [n for n in tree.body if isinstance(n, ast.ClassDef)]:
             sc = {}
             for fn in _functions_of(cls.body):
-                if method_defs.get(fn.name, 0) != 1:
+                if method_defs.get((id(cls), fn.name), 0) != 1:
                     continue
-                kind = _classify(fn, True, False)
+                rcls = rmod['classes'].get(cls.name) if rmod else None
+                kind = _classify(fn, True, False, (set(rcls['methods']) if rcls else set()) if rmod else None)
                 if kind is not None:
                     sc[('m', fn.name)] = _Helper(fn, kind, cls, True)
             class_scopes[id(cls)] = sc
@@ -535,8 +587,8 @@ def normalize_package(trees):
         for n in ast.walk(tree):
             if isinstance(n, ast.ImportFrom):
                 names.update(al.name for al in n.names)
-            elif isinstance(n, ast.Attribute):
-                names.add(n.attr)
+            elif isinstance(n, ast.Attribute) and not (isinstance(n.value, ast.Name) and n.value.id == 'self'):
+                names.add(n.attr)       # (self.<name> in another module belongs to that module's own classes)
         ext[mname] = names
     for other, (mod_scope, class_scopes) in helpers_by_module.items():
         foreign = set()
@@ -552,14 +604,15 @@ def normalize_package(trees):
         mod_scope, class_scopes = helpers_by_module[mname]
         if not mod_scope and not any(class_scopes.values()) and not _has_nested_candidates(tree):
             continue
+        rmod = (ref or {}).get(mname)
         for _round in (0, 1):
             for fn in _functions_of(tree.body):
-                _process_function(fn, mod_scope)
+                _process_function(fn, mod_scope, 0, set((rmod['nested'].get(fn.name) or {})) if rmod else None)
             for cls in [n for n in tree.body if isinstance(n, ast.ClassDef)]:
                 sc = dict(mod_scope)
                 sc.update(class_scopes.get(id(cls), {}))
                 for fn in _functions_of(cls.body):
-                    _process_function(fn, sc)
+                    _process_function(fn, sc, 0, set((rmod['nested'].get(cls.name + '.' + fn.name) or {})) if rmod else None)
         # remove helpers without remaining references
         for key, h in list(mod_scope.items()):
             if h.inlined and not any(isinstance(x, ast.Name) and x.id == h.name and isinstance(x.ctx, ast.Load) for x in ast.walk(tree)):
@@ -1006,3 +1059,100 @@ def undo_extracted_locals(trees, ref):
                     break
             ast.fix_missing_locations(fn)
     return log
+
+
+def desugar_namedtuples(trees):
+    """a private module-level `_T = namedtuple('_T', 'a b c')` is only a spelling of the tuple (a, b, c): constructor calls become
+    tuple displays and reads of a field become constant subscripts - provided the field name is used for nothing else in the
+    package (never assigned as an attribute, not a method / class attribute name).  -> [(module, type name, fields)]"""
+    log = []
+    stored, defined = set(), set()
+    for tree in trees.values():
+        for n in ast.walk(tree):
+            if isinstance(n, ast.Attribute) and isinstance(n.ctx, (ast.Store, ast.Del)):
+                stored.add(n.attr)
+            elif isinstance(n, (ast.FunctionDef, ast.AsyncFunctionDef, ast.ClassDef)):
+                defined.add(n.name)
+            elif isinstance(n, ast.ClassDef):
+                pass
+        for cls in [x for x in ast.walk(tree) if isinstance(x, ast.ClassDef)]:
+            for st in cls.body:
+                if isinstance(st, ast.Assign):
+                    defined.update(t.id for t in st.targets if isinstance(t, ast.Name))
+    for mname, tree in trees.items():
+        types = {}
+        for st in tree.body:
+            if isinstance(st, ast.Assign) and len(st.targets) == 1 and isinstance(st.targets[0], ast.Name) and isinstance(st.value, ast.Call):
+                f = ast.unparse(st.value.func)
+                if f.split('.')[-1] == 'namedtuple' and len(st.value.args) == 2 and not st.value.keywords:
+                    spec = st.value.args[1]
+                    fields = None
+                    if isinstance(spec, ast.Constant) and isinstance(spec.value, str):
+                        fields = spec.value.replace(',', ' ').split()
+                    elif isinstance(spec, (ast.List, ast.Tuple)) and all(isinstance(e, ast.Constant) and isinstance(e.value, str) for e in spec.elts):
+                        fields = [e.value for e in spec.elts]
+                    if fields and st.targets[0].id.startswith('_') and not any(f_ in stored or f_ in defined for f_ in fields):
+                        types[st.targets[0].id] = fields
+        if not types:
+            continue
+        # a field name shared by two such types with different positions is ambiguous
+        pos = {}
+        for tn, fields in types.items():
+            for i, f_ in enumerate(fields):
+                pos.setdefault(f_, set()).add(i)
+        fieldpos = dict((f_, list(p_)[0]) for f_, p_ in pos.items() if len(p_) == 1)
+
+        class _T(ast.NodeTransformer):
+            def visit_Call(self, node):
+                self.generic_visit(node)
+                if isinstance(node.func, ast.Name) and node.func.id in types and not any(isinstance(a, ast.Starred) for a in node.args) \
+                        and not any(k.arg is None for k in node.keywords):
+                    fields = types[node.func.id]
+                    vals = dict(zip(fields, node.args))
+                    for k in node.keywords:
+                        vals[k.arg] = k.value
+                    if set(vals) == set(fields):
+                        return ast.copy_location(ast.Tuple(elts=[vals[f_] for f_ in fields], ctx=ast.Load()), node)
+                return node
+
+            def visit_Attribute(self, node):
+                self.generic_visit(node)
+                if isinstance(node.ctx, ast.Load) and node.attr in fieldpos:
+                    return ast.copy_location(ast.Subscript(value=node.value, slice=ast.Constant(value=fieldpos[node.attr]), ctx=ast.Load()), node)
+                return node
+        for other in trees.values():
+            _T().visit(other)
+            ast.fix_missing_locations(other)
+        for tn, fields in types.items():
+            log.append((mname, tn, fields))
+    return log
+
+
+def force_inline(caller_fn, helper_fn, method=True):
+    """a copy of caller_fn in which the calls of helper_fn (a method called as self.<name>(...) when `method`) are inlined, whatever
+    the helper is called and whether or not a rule mentions it; None if the helper's shape is not one the inliner handles.  For
+    rules that describe a pair of functions one of which may delegate to the other (SingleObserver.when_fired / already_fired)."""
+    body = list(helper_fn.body)
+    if body and isinstance(body[0], ast.Expr) and isinstance(body[0].value, ast.Constant):
+        body = body[1:]
+    rets = [x for b in body for x in ast.walk(b) if isinstance(x, ast.Return)]
+    if not rets:
+        kind = 'STMT'
+    elif len(rets) == 1 and rets[0] is body[-1] and rets[0].value is not None:
+        kind = 'EXPR' if len(body) == 1 else 'STMT_RET'
+    elif _structure([copy.deepcopy(b) for b in body], '_r') is not None:
+        kind = 'STRUCT'
+    else:
+        return None
+    a = helper_fn.args
+    if a.vararg or a.kwarg or a.kwonlyargs or a.defaults:
+        return None
+    h = _Helper(helper_fn, kind, None, method)
+    fn = copy.deepcopy(caller_fn)
+    inl = _Inliner({('m' if method else 'f', helper_fn.name): h}, False)
+    inl.root = fn
+    inl.visit(fn)
+    if not h.inlined:
+        return None
+    ast.fix_missing_locations(fn)
+    return fn
